@@ -88,12 +88,14 @@ var allLegs = legs{true, true, true, true, true}
 // or parsed from fuzzed bytes). want / wantErr: its canonical resolution.
 func checkObject(s0 *schema.Schema, want string, wantErr error, l legs, marshalTextOK, jsonOK bool, cur *string) (out []finding) {
 	var sText, sJSON *schema.Schema
+	var firstText []byte
 	if marshalTextOK && (l.text || l.cross) {
 		*cur = "text"
 		t1, err := s0.MarshalCedar()
 		if err != nil {
 			return append(out, finding{"text/marshal", "MarshalCedar: " + err.Error()})
 		}
+		firstText = t1
 		var s1 schema.Schema
 		if err := s1.UnmarshalCedar(t1); err != nil {
 			out = append(out, finding{"text/parse", fmt.Sprintf("MarshalCedar output does not parse: %v\n%s", err, t1)})
@@ -138,7 +140,7 @@ func checkObject(s0 *schema.Schema, want string, wantErr error, l legs, marshalT
 		// encoders must not depend on (or disturb) one another: the text rendering and the resolution of the same object
 		// after it has been encoded to JSON are what they were before
 		*cur = "text-after-json"
-		if t1, err := s0.MarshalCedar(); err == nil {
+		if t1 := firstText; t1 != nil {
 			if _, err := s0.MarshalJSON(); err == nil {
 				t1b, _ := s0.MarshalCedar()
 				if string(t1b) != string(t1) {
